@@ -287,6 +287,7 @@ func TestVerifC13Start(t *testing.T) {
 	res := ev.New("C13", "start")
 	defer res.Write()
 	log.Info("warm up the logger outside the bubble")
+	schedQuiet()
 	sched.StartWatchdog(90 * time.Second)
 	bound := 1
 	if ev.Thorough() {
